@@ -430,6 +430,25 @@ pub fn run(rep: &mut Report, thorough: bool) {
             rep.stage(&stage, "5 text fields (HTTP target, header value, SSH software, SSH comment, SMB1 dialect) x 6 fill sequences (2/3/4-byte UTF-8, invalid bytes, ASCII) x 4 alignments x every length 1..300 x {UDP, TCP}", total, t0);
         }
     }
+    // 4c. connection-level histories: BFS over the real connection table with SYNs, valid and
+    // invalid data of several protocols (HTTP, RPC, SSH) on two flows — protocol state that
+    // survives a re-identification of the flow must not crash a later handler
+    {
+        use crate::bfs::{self, BfsOpts};
+        use crate::props::c07::{add_cross_acks, setup, tcp_events};
+        match setup(ext[0].clone().with_profile(Profile::Dev), 2) {
+            Ok(s) => {
+                let mut events = Vec::new();
+                for (tagf, f) in &s.flows {
+                    events.extend(tcp_events(tagf, f, s.cookies[&key_of(f)], true));
+                }
+                add_cross_acks(&mut events, &s);
+                let o = BfsOpts { stage: "bfs-connection-histories".into(), max_depth: if thorough { 5 } else { 4 }, max_states: if thorough { 60000 } else { 12000 }, abstract_acc: true, differential: false };
+                bfs::bfs(&s.cfg, &events, &s.cookies, &o, rep);
+            }
+            Err(e) => rep.sink.machinery_errors.push(e),
+        }
+    }
     // 5. histories: every corpus frame in every reachable parser control state
     histories(rep, &ext[0].clone().with_profile(Profile::Dev), &base, &cookies, thorough);
     rep.states += rep.sink.classes.len() as u64;
